@@ -39,7 +39,18 @@ RULE = (
     "/ at the end / doubled / as a run filling the field, in every ARS text field and in the TMS text, and mixed into the "
     "random texts; refresh "
     "times 1..127 and all failure reasons x trailer x flags are complete in the grid.  Distinct by case hash; non-trivial: TMS sequence >= 32 or address >= 128 octets or an "
-    "optional header present; ARS optional/second header present or an identifier >= 128 bytes or CSBK trailer."
+    "optional header present; ARS optional/second header present or an identifier >= 128 bytes or CSBK trailer.  retained: batches "
+    "of 2..4 messages - a message and NEAR TWINS of it (exactly one field different: one flag, the trailer, one identifier "
+    "absent / empty / one character more or less, event, the second header replaced by one that collides with it in the low "
+    "seven bits across the success / failure flag or in bit 6, sequence number with the same five low bits / +-1 / absent, "
+    "encoding, address or text one octet different, the other PDU type) - are built and serialised, the images are parsed in a "
+    "given order WITHOUT serialising in between, then every kept parsed object is inspected and serialised again (and the built "
+    "ones), with repr() calls and damaged images of the same messages in between; deterministic: every ordered pair of 13 "
+    "second headers x trailer combinations, every refresh time 1..127 x every failure reason, sequence-number edges x their "
+    "partners, capability pairs, a sample of the boundary messages x rotating twins; plus Hypothesis batches; each batch is "
+    "judged in a process of its own that starts from a freshly imported library.  Preludes (framework: every 8th held case is judged again after them): images of "
+    "the case's one-field twins parsed / inspected / serialised, its header octets (plain, flag bit flipped) through every "
+    "header class, truncated / over-long / foreign-family images through the parsers."
 )
 ASSUMPTIONS = [
     "reference layouts in vp/refs/moto_ref.py (unit-checked against the 13 captured messages of test_tms.py / test_ars.py)",
@@ -71,9 +82,8 @@ def _norm_text(x):
 # ---------------------------------------------------------------------------------------------- TMS
 
 
-def oracle_tms(case):
-    """case = {pdu: availability|ack|text, ack, reserved, more_in, address: hex, capability: None|0..3, sn: None|0..127,
-    encoding: None|UNDEFINED|UCS2_LE, message: hex}"""
+def _tms_build(case):
+    """build the message from the fields of the case; -> (message object, context for the comparisons)"""
     T = tms()
     pdu = case["pdu"]
     ptype = {"availability": T.TMSPDUType.SERVICE_AVAILABILITY, "ack": T.TMSPDUType.TMS_ACKNOWLEDGEMENT, "text": T.TMSPDUType.SIMPLE_TEXT_MESSAGE}[pdu]
@@ -89,16 +99,14 @@ def oracle_tms(case):
     if cap is not None:
         _, avail = call(T.AvailabilitySecondHeader, T.TMSDeviceCapability(cap))
     _, msg = call(T.TextMessagingService, first_header=fh, address=addr, availability_header=avail, sequence_number=sn, encoding=enc, message=message)
-    _, b = call(msg.as_bytes)
-    b = bytes(b)
-    # (1) framing
-    if len(b) < 4 or int.from_bytes(b[:2], "big") != len(b) - 2:
-        raise Fail("length_prefix_counts_following_bytes", {"prefix": int.from_bytes(b[:2], "big"), "bytes": b.hex()}, len(b) - 2, klass)
-    # (2) fields
-    _, p = call(T.TextMessagingService.from_bytes, b)
-    if p is None:
-        raise Fail("parses_back", None, "a TextMessagingService", klass)
     exp_more = {"availability": cap is not None, "ack": sn is not None, "text": True}[pdu]
+    return msg, {"pdu": pdu, "ptype": ptype, "addr": addr, "cap": cap, "sn": sn, "enc_eff": enc_eff, "message": message, "klass": klass, "exp_more": exp_more}
+
+
+def _tms_check_parsed(p, case, c, clause="parsed_fields_equal_built_fields"):
+    """(2) the fields of the parsed message p equal the fields the message was built from"""
+    T = tms()
+    pdu, cap, sn, enc_eff, message, addr = c["pdu"], c["cap"], c["sn"], c["enc_eff"], c["message"], c["addr"]
     got = {
         "pdu_type": p.header.pdu_type.name, "is_acknowledged": p.header.is_acknowledged, "is_control_message": p.header.is_control_message,
         "has_more_headers": p.header.has_more_headers, "address": bytes(p.address).hex(),
@@ -107,8 +115,8 @@ def oracle_tms(case):
         "message": bytes(p.message).hex() if p.message else None,
     }
     exp = {
-        "pdu_type": ptype.name, "is_acknowledged": bool(case["ack"]), "is_control_message": pdu != "text",
-        "has_more_headers": exp_more, "address": addr.hex(), "capability": cap,
+        "pdu_type": c["ptype"].name, "is_acknowledged": bool(case["ack"]), "is_control_message": pdu != "text",
+        "has_more_headers": c["exp_more"], "address": addr.hex(), "capability": cap,
         "sequence_number": sn, "encoding": enc_eff.name if enc_eff is not None else None,
         "message": message.hex() if message else None,
     }
@@ -119,12 +127,12 @@ def oracle_tms(case):
         got["encoding"] = exp["encoding"] = None
     if got != exp:
         diff = {k: [got[k], exp[k]] for k in exp if got[k] != exp[k]}
-        raise Fail("parsed_fields_equal_built_fields", {k: v[0] for k, v in diff.items()}, {k: v[1] for k, v in diff.items()}, klass)
-    # (3) fixed point
-    _, b2 = call(p.as_bytes)
-    if bytes(b2) != b:
-        raise Fail("parsed_message_serialises_to_same_bytes", bytes(b2).hex(), b.hex(), klass)
-    # (4) reference layout: the octets, decoded by layout knowledge alone, carry the built fields
+        raise Fail(clause, {k: v[0] for k, v in diff.items()}, {k: v[1] for k, v in diff.items()}, c["klass"])
+
+
+def _tms_check_reference(b: bytes, case, c):
+    """(4) reference layout: the octets, decoded by layout knowledge alone, carry the built fields"""
+    pdu, cap, sn, enc_eff, message, addr, klass, exp_more = c["pdu"], c["cap"], c["sn"], c["enc_eff"], c["message"], c["addr"], c["klass"], c["exp_more"]
     try:
         r = MR.tms_parse(b)
     except (MR.LayoutError, IndexError) as e:
@@ -140,12 +148,39 @@ def oracle_tms(case):
         raise Fail("wire_image_decodes_to_built_fields_by_reference_layout", {"bytes": b.hex(), **{k: v[0] for k, v in diff.items()}}, {k: v[1] for k, v in diff.items()}, klass)
 
 
+def _length_prefix(b: bytes, minimum: int, klass: str):
+    if len(b) < minimum or int.from_bytes(b[:2], "big") != len(b) - 2:
+        raise Fail("length_prefix_counts_following_bytes", {"prefix": int.from_bytes(b[:2], "big"), "bytes": b.hex()}, len(b) - 2, klass)
+
+
+def oracle_tms(case):
+    """case = {pdu: availability|ack|text, ack, reserved, more_in, address: hex, capability: None|0..3, sn: None|0..127,
+    encoding: None|UNDEFINED|UCS2_LE, message: hex}"""
+    T = tms()
+    msg, c = _tms_build(case)
+    klass = c["klass"]
+    _, b = call(msg.as_bytes)
+    b = bytes(b)
+    # (1) framing
+    _length_prefix(b, 4, klass)
+    # (2) fields
+    _, p = call(T.TextMessagingService.from_bytes, b)
+    if p is None:
+        raise Fail("parses_back", None, "a TextMessagingService", klass)
+    _tms_check_parsed(p, case, c)
+    # (3) fixed point
+    _, b2 = call(p.as_bytes)
+    if bytes(b2) != b:
+        raise Fail("parsed_message_serialises_to_same_bytes", bytes(b2).hex(), b.hex(), klass)
+    # (4) reference layout
+    _tms_check_reference(b, case, c)
+
+
 # ---------------------------------------------------------------------------------------------- ARS
 
 
-def oracle_ars(case):
-    """case = {pdu: device_reg|user_reg|query|dereg|response, ack, priority, control, event: None|name, device, user, password:
-    None|str, second: None|{refresh: n}|{failure: name}, csbk}"""
+def _ars_build(case):
+    """build the message from the fields of the case; -> (message object, context for the comparisons)"""
     A = ars()
     pdu = case["pdu"]
     ptype = {
@@ -157,7 +192,6 @@ def oracle_ars(case):
     ack = bool(case["ack"])
     if pdu == "response" and second is not None:
         ack = "failure" in second  # the acknowledgement flag of a response selects failure reason / refresh time
-    klass = pdu
     _, fh = call(A.FirstHeader, has_more_headers=more, is_acknowledged=ack, is_priority=case["priority"], is_control_message=case["control"], pdu_type=ptype)
     reg = rsh = None
     if pdu in ("device_reg", "user_reg") and event is not None:
@@ -175,11 +209,13 @@ def oracle_ars(case):
     if pdu in ("device_reg", "user_reg"):
         kw = {"device_identifier": case.get("device"), "user_identifier": case.get("user"), "password": case.get("password")}
     _, msg = call(A.AutomaticRegistrationService, first_header=fh, registration_request_header=reg, response_second_header=rsh, is_csbk_ars=csbk, **kw)
-    _, b = call(msg.as_bytes)
-    b = bytes(b)
-    if len(b) < 3 or int.from_bytes(b[:2], "big") != len(b) - 2:
-        raise Fail("length_prefix_counts_following_bytes", {"prefix": int.from_bytes(b[:2], "big"), "bytes": b.hex()}, len(b) - 2, klass)
-    _, p = call(A.AutomaticRegistrationService.from_bytes, b)
+    return msg, {"pdu": pdu, "ptype": ptype, "klass": pdu, "event": event, "second": second, "csbk": csbk, "more": more, "ack": ack, "has_second": rsh is not None,
+                 "second_octet": second_octet, "kw": kw}
+
+
+def _ars_check_parsed(p, case, c, clause="parsed_fields_equal_built_fields"):
+    """(2) the fields of the parsed message p equal the fields the message was built from"""
+    second, kw, event = c["second"], c["kw"], c["event"]
     got = {
         "pdu_type": p.header.pdu_type.name, "has_more_headers": p.header.has_more_headers, "is_acknowledged": p.header.is_acknowledged,
         "is_priority": p.header.is_priority, "is_control_message": p.header.is_control_message, "is_csbk_ars": p.is_csbk_ars,
@@ -189,12 +225,12 @@ def oracle_ars(case):
         "second_header_present": p.response_second_header is not None,
     }
     exp = {
-        "pdu_type": ptype.name, "has_more_headers": more, "is_acknowledged": ack, "is_priority": bool(case["priority"]), "is_control_message": bool(case["control"]),
-        "is_csbk_ars": csbk, "event": event, "encoding": "UTF8" if event is not None else None,
+        "pdu_type": c["ptype"].name, "has_more_headers": c["more"], "is_acknowledged": c["ack"], "is_priority": bool(case["priority"]), "is_control_message": bool(case["control"]),
+        "is_csbk_ars": c["csbk"], "event": event, "encoding": "UTF8" if event is not None else None,
         "device_identifier": _norm_text(kw.get("device_identifier")), "user_identifier": _norm_text(kw.get("user_identifier")), "password": _norm_text(kw.get("password")),
-        "second_header_present": rsh is not None,
+        "second_header_present": c["has_second"],
     }
-    if rsh is not None and p.response_second_header is not None:
+    if c["has_second"] and p.response_second_header is not None:
         if "failure" in second:
             got["failure_reason"] = p.response_second_header.failure_reason.name if p.response_second_header.failure_reason is not None else None
             exp["failure_reason"] = second["failure"]
@@ -202,22 +238,41 @@ def oracle_ars(case):
             got["refresh_time"], exp["refresh_time"] = p.response_second_header.refresh_time, second["refresh"]
     if got != exp:
         diff = {k: [got.get(k), exp[k]] for k in exp if got.get(k) != exp[k]}
-        raise Fail("parsed_fields_equal_built_fields", {k: v[0] for k, v in diff.items()}, {k: v[1] for k, v in diff.items()}, klass)
-    _, b2 = call(p.as_bytes)
-    if bytes(b2) != b:
-        raise Fail("parsed_message_serialises_to_same_bytes", bytes(b2).hex(), b.hex(), klass)
+        raise Fail(clause, {k: v[0] for k, v in diff.items()}, {k: v[1] for k, v in diff.items()}, c["klass"])
+
+
+def _ars_check_reference(b: bytes, case, c):
+    """(4) reference layout: the octets, decoded by layout knowledge alone, carry the built fields"""
+    kw, event, klass = c["kw"], c["event"], c["klass"]
     try:
         r = MR.ars_parse(b)
     except (MR.LayoutError, IndexError, UnicodeDecodeError) as e:
         raise Fail("wire_image_follows_reference_layout", f"{b.hex()}: {e}", "decodable by the documented layout", klass)
     got_r = {k: r[k] for k in ("pdu", "more", "ack", "priority", "control", "event", "second", "csbk")}
     got_r.update({k: _norm_text(r[k]) for k in ("device", "user", "password")})
-    exp_r = {"pdu": pdu, "more": more, "ack": ack, "priority": bool(case["priority"]), "control": bool(case["control"]),
-             "event": MR.ARS_EVENTS[event] if event is not None else None, "second": second_octet, "csbk": csbk,
+    exp_r = {"pdu": c["pdu"], "more": c["more"], "ack": c["ack"], "priority": bool(case["priority"]), "control": bool(case["control"]),
+             "event": MR.ARS_EVENTS[event] if event is not None else None, "second": c["second_octet"], "csbk": c["csbk"],
              "device": _norm_text(kw.get("device_identifier")), "user": _norm_text(kw.get("user_identifier")), "password": _norm_text(kw.get("password"))}
     if got_r != exp_r:
         diff = {k: [got_r[k], exp_r[k]] for k in exp_r if got_r[k] != exp_r[k]}
         raise Fail("wire_image_decodes_to_built_fields_by_reference_layout", {"bytes": b.hex(), **{k: v[0] for k, v in diff.items()}}, {k: v[1] for k, v in diff.items()}, klass)
+
+
+def oracle_ars(case):
+    """case = {pdu: device_reg|user_reg|query|dereg|response, ack, priority, control, event: None|name, device, user, password:
+    None|str, second: None|{refresh: n}|{failure: name}, csbk}"""
+    A = ars()
+    msg, c = _ars_build(case)
+    klass = c["klass"]
+    _, b = call(msg.as_bytes)
+    b = bytes(b)
+    _length_prefix(b, 3, klass)
+    _, p = call(A.AutomaticRegistrationService.from_bytes, b)
+    _ars_check_parsed(p, case, c)
+    _, b2 = call(p.as_bytes)
+    if bytes(b2) != b:
+        raise Fail("parsed_message_serialises_to_same_bytes", bytes(b2).hex(), b.hex(), klass)
+    _ars_check_reference(b, case, c)
 
 
 # ---------------------------------------------------------------------------------------------- classes
@@ -585,9 +640,507 @@ def drv_ars(ctx: Ctx, sub: SubCheck):
     ctx.shards(lambda i, t: ctx.hypothesis(sub.name, strat, oracle_ars, ctx.pick(2400, 12000), tally=t, shard=i, record=rec), list(range(ctx.pick(16, 80))))
 
 
+# ---------------------------------------------------------------------------------------------- retained objects (round 7)
+#
+# A case of the sub-checks above builds one message, parses it and serialises the parsed object at once, so an object never
+# outlives the parse of the next message.  Real users keep parsed messages (a queue of acknowledgements to forward, a table
+# of registrations).  State shared between parsed objects - a header object interned on part of its octet and re-bound to
+# the message parsed last, a class-level buffer, a memo of the optional headers keyed on the low sequence-number bits -
+# only shows when message X is parsed, a NEAR TWIN Y of X is parsed (equal in what the shared key looks at, different in
+# what it neglects: the success / failure flag of the first header in front of the same low seven second-header bits, the
+# two high sequence-number bits in front of the same five low bits, the trailer, one identifier, one flag), and X is
+# serialised or inspected AGAIN.
+#
+#   case = {kind: tms|ars, msgs: [message case, ...], parse: [index into msgs, ...], ops: [[op, k], ...]}
+#   1. every message is built from its fields and serialised (b_i; length prefix and reference layout are judged, so b_i is
+#      known to carry the fields whatever state the library is in);
+#   2. the images are parsed in the order `parse` (an index may occur twice: two objects from equal octets); NOTHING is
+#      serialised in between; all parsed and built objects are kept;
+#   3. ops: bytes k (parsed object k serialises to the image it came from), fields k (it has the built fields), repr k
+#      (stimulus), built k (built message k serialises to b_k again), parse k (another object from image k, kept), damaged k
+#      (stimulus: truncated / over-long / trailer-extended variants of image k through the parser, refusals ignored);
+#   4. finally every kept parsed object is judged for fields and bytes, every built one for bytes.
+# Judged in a process of its own (vp/isolate.py): failing cases are self-contained, shrinking is sound.
+
+
+def _retained_fns(kind):
+    if kind == "tms":
+        return _tms_build, _tms_check_parsed, _tms_check_reference, tms().TextMessagingService.from_bytes, 4
+    return _ars_build, _ars_check_parsed, _ars_check_reference, ars().AutomaticRegistrationService.from_bytes, 3
+
+
+def _oracle_retained(case):
+    kind = case["kind"]
+    build, check_parsed, check_reference, from_bytes, minimum = _retained_fns(kind)
+    built, images = [], []
+    for mc in case["msgs"]:
+        msg, c = build(mc)
+        _, b = call(msg.as_bytes)
+        b = bytes(b)
+        _length_prefix(b, minimum, c["klass"])
+        check_reference(b, mc, c)
+        built.append((msg, mc, c))
+        images.append(b)
+    objs = []  # (parsed object, index of its message)
+
+    def parse(i):
+        _, p = call(from_bytes, images[i])
+        if p is None:
+            raise Fail("parses_back", None, "a message object", built[i][2]["klass"])
+        objs.append((p, i))
+
+    def judge_bytes(k, step):
+        p, i = objs[k]
+        _, b2 = call(p.as_bytes)
+        if bytes(b2) != images[i]:
+            raise Fail("retained_parsed_message_serialises_to_the_bytes_it_was_parsed_from", {"step": step, "object": k, "message": i, "bytes": bytes(b2).hex()}, images[i].hex(),
+                       kind + ":" + built[i][2]["klass"])
+
+    def judge_fields(k, step):
+        p, i = objs[k]
+        try:
+            check_parsed(p, built[i][1], built[i][2], clause="retained_parsed_message_keeps_the_built_fields")
+        except Fail as f:
+            raise Fail(f.clause, {"step": step, "object": k, "message": i, "fields": f.observed}, f.expected, kind + ":" + f.klass)
+
+    def judge_built(i, step):
+        _, b2 = call(built[i][0].as_bytes)
+        if bytes(b2) != images[i]:
+            raise Fail("retained_built_message_serialises_to_the_same_bytes_again", {"step": step, "message": i, "bytes": bytes(b2).hex()}, images[i].hex(), kind + ":" + built[i][2]["klass"])
+
+    for i in case["parse"]:
+        parse(i % len(images))
+    for n, (op, k) in enumerate(case.get("ops", [])):
+        if op == "parse":
+            parse(k % len(images))
+        elif op == "damaged":
+            # rightly refused / damaged variants of image k (stimulus): truncated, length prefix too large, trailer appended
+            b = images[k % len(images)]
+            for v in (b[:-1], (len(b) + 3).to_bytes(2, "big") + b[2:], b[:3], b + b"\x10\x80"):
+                call(from_bytes, v, allowed=(Exception,))
+        elif op == "built":
+            judge_built(k % len(built), n)
+        elif objs:
+            k %= len(objs)
+            if op == "bytes":
+                judge_bytes(k, n)
+            elif op == "fields":
+                judge_fields(k, n)
+            elif op == "repr":
+                call(lambda o: (repr(o), str(o), len(o) if hasattr(o, "__len__") else None), objs[k][0], allowed=(Exception,))
+            else:
+                raise ValueError(op)
+    for k in range(len(objs)):
+        judge_fields(k, "final")
+        judge_bytes(k, "final")
+    for i in range(len(built)):
+        judge_built(i, "final")
+
+
+from vp.isolate import isolated  # noqa: E402
+
+oracle_retained = isolated(_oracle_retained, warm=lambda: (tms(), ars()))
+
+ARS_REGS = ("device_reg", "user_reg")
+ARS_EVENTS_ALL = [None, "DONT_CARE", "INITIAL", "REFRESH"]
+
+
+def ars_second_partners(s):
+    """second headers that collide with s in part of the octet (low seven bits across the success / failure flag, bit 6,
+    neighbours) or differ from it in presence"""
+    out = []
+    if s is None:
+        return [{"refresh": 1}, {"refresh": 127}] + [{"failure": f} for f in sorted(MR.ARS_FAILURES)]
+    if "refresh" in s:
+        n = s["refresh"]
+        out += [{"failure": f} for f, o in sorted(MR.ARS_FAILURES.items()) if o & 0x7F == n]
+        out += [{"refresh": m} for m in (n ^ 0x40, n - 1, n + 1, 127 - n) if 1 <= m <= 127 and m != n]
+        out += [None, {"failure": "TRANSMISSION_FAILURE"}, {"failure": "DEVICE_NOT_AUTHORIZED"}]
+    else:
+        o = MR.ARS_FAILURES[s["failure"]]
+        if o & 0x7F:
+            out.append({"refresh": o & 0x7F})
+        out += [{"failure": f} for f in sorted(MR.ARS_FAILURES) if f != s["failure"]]
+        out += [None, {"refresh": 127}, {"refresh": 1}]
+    seen, res = set(), []
+    for x in out:
+        if repr(x) not in seen and x != s:
+            seen.add(repr(x))
+            res.append(x)
+    return res
+
+
+def _text_variants(v):
+    """near twins of an identifier: absent / empty / one character more / one less / first character changed / doubled"""
+    out = [None, ""]
+    if v:
+        out += [v[:-1], v[1:], ("x" if v[0] != "x" else "y") + v[1:], v[:-1] + ("0" if v[-1] != "0" else "1")]
+        if len((v + v).encode("utf-8")) <= 255:
+            out.append(v + v)
+    base = v or ""
+    if len((base + "1").encode("utf-8")) <= 255:
+        out.append(base + "1")
+    return [x for x in out if x != v]
+
+
+def ars_twins(c):
+    """every message that differs from c in exactly one field (deterministic list of (label, case))"""
+    out = []
+
+    def put(label, **kw):
+        d = dict(c)
+        d.update(kw)
+        out.append((label, d))
+
+    for k in ("priority", "control", "csbk"):
+        put("flip_" + k, **{k: not c[k]})
+    if not (c["pdu"] == "response" and c.get("second") is not None):
+        put("flip_ack", ack=not c["ack"])
+    if c["pdu"] in ARS_REGS:
+        put("other_pdu", pdu=[p for p in ARS_REGS if p != c["pdu"]][0])
+        for ev in ARS_EVENTS_ALL:
+            if ev != c.get("event"):
+                put("event", event=ev)
+        for k in ("device", "user", "password"):
+            for v in _text_variants(c.get(k)):
+                put("field_" + k, **{k: v})
+        put("fields_swapped", device=c.get("user"), user=c.get("device"))
+    elif c["pdu"] == "response":
+        for s2 in ars_second_partners(c.get("second")):
+            put("second", second=s2)
+    else:
+        put("other_pdu", pdu="dereg" if c["pdu"] == "query" else "query")
+        put("other_pdu", pdu="response")
+    return out
+
+
+def tms_twins(c):
+    out = []
+
+    def put(label, **kw):
+        d = dict(c)
+        d.update(kw)
+        out.append((label, d))
+
+    for k in ("ack", "reserved", "more_in"):
+        put("flip_" + k, **{k: not c[k]})
+    a = bytes.fromhex(c["address"])
+    for v in ({b"", a[:-1], a[1:], a + b"\x00", a + a[-1:], bytes([a[0] ^ 0x80]) + a[1:] if a else b"\x80", a[:-1] + bytes([a[-1] ^ 1]) if a else b"\x01"}):
+        if v != a and len(v) <= 255:
+            put("address", address=v.hex())
+    pdu, sn = c["pdu"], c.get("sn")
+    if pdu == "availability":
+        for cap in (None, 0, 1, 2, 3):
+            if cap != c.get("capability"):
+                put("capability", capability=cap)
+        put("other_pdu", pdu="ack", capability=None, sn=None)
+    else:
+        sns = {0, 31, 32, 127} | ({sn ^ 0x20, sn ^ 0x40, sn ^ 0x60, (sn + 1) % 128, (sn - 1) % 128, sn & 0x1F} if sn is not None else {1, 33})
+        if pdu == "ack":
+            sns.add(None)
+        for v in sorted(sns - {sn}, key=lambda x: -1 if x is None else x):
+            put("sn", sn=v)
+        if pdu == "text":
+            for e in (None, "UNDEFINED", "UCS2_LE"):
+                if e != c.get("encoding"):
+                    put("encoding", encoding=e)
+            m = bytes.fromhex(c.get("message", ""))
+            for v in ({b"", m[:-2], m[2:], m + b"a\x00", m + m[-2:], m[:-2] + bytes([m[-2] ^ 1, m[-1]]) if m else b"\x01\x00"}):
+                if v != m and len(v) <= 400:
+                    put("message", message=v.hex())
+            if sn is not None:
+                put("other_pdu", pdu="ack", encoding=None, message="")
+        else:
+            put("other_pdu", pdu="text", sn=sn if sn is not None else 0, encoding=None, message="6100")
+    return out
+
+
+def _retained_classes(c):
+    out = [c["kind"], f"msgs_{len(c['msgs'])}", f"objects_{min(len(c['parse']) + sum(1 for o in c.get('ops', []) if o[0] == 'parse'), 6)}"]
+    pdus = sorted({m["pdu"] for m in c["msgs"]})
+    out.append("pdus:" + "+".join(pdus))
+    if c["kind"] == "ars":
+        sec = [m.get("second") for m in c["msgs"] if m["pdu"] == "response" and m.get("second") is not None]
+        octs = [(MR.ARS_FAILURES[s["failure"]] if "failure" in s else s["refresh"]) for s in sec]
+        kinds = ["failure" in s for s in sec]
+        if any(octs[i] & 0x7F == octs[j] & 0x7F and kinds[i] != kinds[j] for i in range(len(sec)) for j in range(i)):
+            out.append("second_headers_collide_modulo_flag_bit")
+    else:
+        sns = [m.get("sn") for m in c["msgs"] if m.get("sn") is not None]
+        if any(sns[i] != sns[j] and sns[i] & 0x1F == sns[j] & 0x1F for i in range(len(sns)) for j in range(i)):
+            out.append("sequence_numbers_collide_in_low_5_bits")
+    if len(set(c["parse"])) < len(c["parse"]):
+        out.append("same_image_parsed_twice")
+    return out
+
+
+def retained_deterministic_cases():
+    out = []
+    flags = FLAGS4
+    # ARS responses: every ordered pair of second headers of a list that holds every collision modulo the flag bit / bit 6,
+    # x trailer combinations x parse orders (X Y / X Y X)
+    seconds = [None] + [{"refresh": n} for n in (1, 2, 3, 63, 64, 65, 126, 127)] + [{"failure": f} for f in sorted(MR.ARS_FAILURES)]
+    i = 0
+    for x in seconds:
+        for y in seconds:
+            if x == y:
+                continue
+            for cx, cy in ((False, False), (True, True), (False, True), (True, False)):
+                i += 1
+                ack, prio, ctrl, _ = flags[i % 16]
+                mx = {"pdu": "response", "ack": ack, "priority": prio, "control": ctrl, "csbk": cx, "event": None, "device": None, "user": None, "password": None, "second": x}
+                my = dict(mx, csbk=cy, second=y)
+                out.append(({"kind": "ars", "msgs": [mx, my], "parse": [[0, 1], [0, 1, 0]][i % 2], "ops": [[], [["bytes", 0]], [["repr", 0]], [["fields", 1], ["bytes", 1]], [["damaged", 1]]][(i // 2) % 5]}, "ars_second_header_pairs"))
+    # complete: every refresh time against every failure reason (both parse orders alternate)
+    for n in range(1, 128):
+        for k, f in enumerate(sorted(MR.ARS_FAILURES)):
+            i += 1
+            ack, prio, ctrl, csbk = flags[i % 16]
+            mx = {"pdu": "response", "ack": ack, "priority": prio, "control": ctrl, "csbk": csbk, "event": None, "device": None, "user": None, "password": None, "second": {"refresh": n}}
+            my = dict(mx, second={"failure": f})
+            out.append(({"kind": "ars", "msgs": [mx, my] if i % 2 else [my, mx], "parse": [0, 1], "ops": []}, "ars_refresh_x_failure"))
+    # ARS: a sample of the boundary messages, each with every one-field twin (rotating), both orders
+    base = [c for c, _ in ars_boundary_cases()]
+    for j, c in enumerate(base[:: max(1, len(base) // 160)]):
+        tw = ars_twins(c)
+        for r in range(2):
+            label, y = tw[(j * 2 + r) % len(tw)]
+            i += 1
+            out.append(({"kind": "ars", "msgs": [c, y] if r == 0 else [y, c], "parse": [[0, 1], [1, 0], [0, 1, 0]][i % 3], "ops": [[], [["repr", 0], ["built", 0]], [["damaged", 0]]][i % 3]}, "ars_twin:" + label))
+    # TMS: sequence numbers against their partners in the 5 + 2 bit split, acknowledgement and text, three address lengths
+    for sn in SN_EDGES + [None]:
+        for pdu in ("ack", "text"):
+            if sn is None and pdu == "text":
+                continue
+            for la in ((0, 128) if pdu == "ack" else (1,)):
+                i += 1
+                ack, reserved, more_in = FLAGS3[i % 8]
+                x = {"pdu": pdu, "ack": ack, "reserved": reserved, "more_in": more_in, "address": _pat(la, i).hex(), "capability": None, "sn": sn, "encoding": None}
+                if pdu == "text":
+                    x.update(encoding=[None, "UCS2_LE"][i % 2], message=_pat(2 * (i % 4), i).hex())
+                for label, y in tms_twins(x):
+                    if label in ("sn", "other_pdu", "encoding"):
+                        i += 1
+                        out.append(({"kind": "tms", "msgs": [x, y] if i % 2 else [y, x], "parse": [[0, 1], [0, 1, 0], [1, 0]][i % 3], "ops": [[], [["repr", 1]]][i % 2]}, "tms_twin:" + label))
+    base = [c for c, _ in tms_boundary_cases()]
+    for j, c in enumerate(base[:: max(1, len(base) // 160)]):
+        tw = tms_twins(c)
+        for r in range(2):
+            label, y = tw[(j * 2 + r) % len(tw)]
+            i += 1
+            out.append(({"kind": "tms", "msgs": [c, y] if r == 0 else [y, c], "parse": [[0, 1], [1, 0], [0, 1, 0]][i % 3], "ops": [[], [["repr", 0], ["built", 0]], [["damaged", 1]]][i % 3]}, "tms_twin:" + label))
+    # availability: every ordered pair of capability headers
+    for a in (None, 0, 1, 2, 3):
+        for b in (None, 0, 1, 2, 3):
+            if a != b:
+                i += 1
+                ack, reserved, more_in = FLAGS3[i % 8]
+                x = {"pdu": "availability", "ack": ack, "reserved": reserved, "more_in": more_in, "address": _pat(i % 3, i).hex(), "capability": a, "sn": None, "encoding": None}
+                out.append(({"kind": "tms", "msgs": [x, dict(x, capability=b)], "parse": [0, 1], "ops": []}, "tms_capability_pairs"))
+    return out
+
+
+def _retained_strategy():
+    """batches of a message and near twins of it.  The base messages come from light strategies (short identifiers, short
+    addresses and texts - the long ones are the business of the solo sub-checks and of the deterministic boundary twins): what
+    matters here is the relation between the messages of a batch"""
+    from hypothesis import strategies as st
+
+    ops = st.lists(st.tuples(st.sampled_from(["bytes", "fields", "repr", "built", "parse", "bytes", "damaged"]), st.integers(0, 7)).map(list), max_size=6)
+    ident = st.one_of(st.sampled_from([None, "", "1", "11", "999999999", "user", "pw", "\x10", "\u0080", "a" * 127, "a" * 128, "b" * 255]), st.text(max_size=5))
+    flags4 = st.tuples(st.booleans(), st.booleans(), st.booleans(), st.booleans())
+    second = st.one_of(
+        st.none(), st.one_of(st.sampled_from([1, 2, 63, 64, 126, 127]), st.integers(1, 127)).map(lambda n: {"refresh": n}), st.sampled_from(sorted(MR.ARS_FAILURES)).map(lambda n: {"failure": n})
+    )
+
+    def ars_msg(t):
+        (ack, prio, ctrl, csbk), pdu, ev, d, u, pw, sec = t
+        c = {"pdu": pdu, "ack": ack, "priority": prio, "control": ctrl, "csbk": csbk, "event": None, "device": None, "user": None, "password": None, "second": None}
+        if pdu in ARS_REGS:
+            c.update(event=ev, device=d, user=u, password=pw)
+        elif pdu == "response":
+            c.update(second=sec)
+        return c
+
+    ars_base = st.tuples(flags4, st.sampled_from(["response", "response", "response", "device_reg", "user_reg", "query", "dereg"]), st.sampled_from(ARS_EVENTS_ALL), ident, ident, ident, second).map(ars_msg)
+    addr = st.one_of(st.binary(max_size=4), st.sampled_from([b"", b"\x01", b"\x80" * 127, b"\x10" * 128, b"\xff" * 255])).map(bytes.hex)
+    sn = st.one_of(st.sampled_from(SN_EDGES), st.integers(0, 127))
+    text = st.one_of(st.just(""), st.text(st.characters(max_codepoint=0xFFFF, exclude_categories=["Cs"]), max_size=6), st.sampled_from(CODEC_SPECIALS))
+
+    def tms_msg(t):
+        (ack, reserved, more_in, _), pdu, a, cap, n, enc, txt, with_sn = t
+        c = {"pdu": pdu, "ack": ack, "reserved": reserved, "more_in": more_in, "address": a, "capability": None, "sn": None, "encoding": None}
+        if pdu == "availability":
+            c["capability"] = cap
+        elif pdu == "ack":
+            c["sn"] = n if with_sn else None
+        else:
+            c.update(sn=n, encoding=enc, message=txt.encode("utf-16-le").hex())
+        return c
+
+    tms_base = st.tuples(flags4, st.sampled_from(["availability", "ack", "ack", "text", "text", "text"]), addr, st.one_of(st.none(), st.integers(0, 3)), sn,
+                         st.sampled_from([None, "UNDEFINED", "UCS2_LE"]), text, st.sampled_from([True, True, True, False])).map(tms_msg)
+
+    @st.composite
+    def batch(draw, kind):
+        base, twins = (ars_base, ars_twins) if kind == "ars" else (tms_base, tms_twins)
+        msgs = [draw(base)]
+        n = draw(st.sampled_from([2, 2, 2, 3, 3, 4]))
+        while len(msgs) < n:
+            how = draw(st.sampled_from(["twin", "twin", "twin", "twin_of_twin", "fresh", "same"]))
+            if how == "fresh":
+                msgs.append(draw(base))
+            elif how == "same":
+                msgs.append(dict(msgs[0]))
+            else:
+                src = msgs[0] if how == "twin" else msgs[-1]
+                tw = twins(src)
+                msgs.append(tw[draw(st.integers(0, len(tw) - 1))][1])
+        order = draw(st.one_of(st.just(list(range(n))), st.permutations(list(range(n))), st.lists(st.integers(0, n - 1), min_size=2, max_size=6)))
+        return {"kind": kind, "msgs": msgs, "parse": list(order), "ops": draw(ops)}
+
+    return st.one_of(batch("ars"), batch("tms"))
+
+
+def _drv_retained(ctx: Ctx, sub: SubCheck):
+    cases = retained_deterministic_cases()
+
+    def work(ch, t: Tally):
+        for c, cls in ch:
+            ctx.run_case(sub.name, oracle_retained, c, t)
+            t.case(sub.name, key=c, nontrivial=True, cls="deterministic:" + cls)
+            for k in _retained_classes(c):
+                t.cls(sub.name, k)
+
+    ctx.shards(work, [cases[i::32] for i in range(32)])
+    ctx.tally.extra.setdefault("deterministic_boundary_cases", {})[sub.name] = len(cases)
+    strat = _retained_strategy()
+
+    def rec(c, t: Tally):
+        t.case(sub.name, key=c, nontrivial=True)
+        for k in _retained_classes(c):
+            t.cls(sub.name, k)
+
+    warm_hypothesis_constants()
+    ctx.shards(lambda i, t: ctx.hypothesis(sub.name, strat, oracle_retained, ctx.pick(100, 1000), tally=t, shard=i, record=rec), list(range(ctx.pick(16, 48))))
+
+NO_PRELUDE = False  # read by vp.core (Ctx.prelude_enabled) at every case
+
+
+def drv_retained(ctx: Ctx, sub: SubCheck):
+    """The cases of this sub-check are judged by a judge server (vp/isolate.py) that the framework's preludes - which run in the
+    calling process - cannot reach: judging a case "again after a prelude" would only repeat the first judgement.  The cases
+    carry their own stimulus steps instead, so preludes are switched off while this sub-check runs."""
+    global NO_PRELUDE
+    NO_PRELUDE = True
+    try:
+        _drv_retained(ctx, sub)
+    finally:
+        NO_PRELUDE = False
+
+# ---------------------------------------------------------------------------------------------- preludes (round 7)
+#
+# Between the two judgements of every 8th case the framework runs these calls: the siblings of what the case does, on
+# values taken from the case - the wire image of the case and of its one-field twins parsed (and the parsed object
+# inspected and serialised), the header classes applied to the case's header octets with the flag bit flipped, rightly
+# refused variants (truncated image, length prefix too large, unassigned PDU type).
+
+
+def _op_parse(a):
+    cls = tms().TextMessagingService if a["kind"] == "tms" else ars().AutomaticRegistrationService
+    p = cls.from_bytes(bytes.fromhex(a["hex"]))
+    repr(p)
+    p.as_bytes()
+    len(p) if hasattr(p, "__len__") else None
+
+
+def _op_headers(a):
+    data = bytes.fromhex(a["hex"])
+    if a["kind"] == "ars":
+        A = ars()
+        for cls in (A.FirstHeader, A.ResponseSecondHeader, A.RegistrationRequestHeader):
+            try:
+                h = cls.from_bytes(data)
+                repr(h)
+                h.as_bytes()
+            except Exception:
+                pass
+    else:
+        T = tms()
+        for cls in (T.FirstHeader, T.AvailabilitySecondHeader):
+            try:
+                h = cls.from_bytes(data)
+                repr(h)
+                h.as_bytes()
+            except Exception:
+                pass
+        try:
+            T.TextMessagingService.decode_sn_and_encoding(data + b"\x00\x00", 0)
+        except Exception:
+            pass
+
+
+def _op_build(a):
+    build = _tms_build if a["kind"] == "tms" else _ars_build
+    msg, _ = build(a["case"])
+    msg.as_bytes()
+    repr(msg)
+
+
+PRELUDE_OPS = {"parse": _op_parse, "headers": _op_headers, "build": _op_build}
+
+
+def _ref_image(kind, c):
+    """wire image of a message case by the reference builder (no library call); None when the builder does not cover it"""
+    try:
+        if kind == "ars":
+            second = c.get("second")
+            more = (c.get("event") is not None) if c["pdu"] in ARS_REGS else (second is not None) if c["pdu"] == "response" else False
+            ack = ("failure" in second) if (c["pdu"] == "response" and second is not None) else bool(c["ack"])
+            octet = None if second is None or c["pdu"] != "response" else (MR.ARS_FAILURES[second["failure"]] if "failure" in second else second["refresh"])
+            return MR.ars_bytes(c["pdu"], more, ack, bool(c["priority"]), bool(c["control"]), event=MR.ARS_EVENTS[c["event"]] if c.get("event") is not None else None,
+                                device=c.get("device"), user=c.get("user"), password=c.get("password"), second=octet, csbk=bool(c.get("csbk")))
+        enc = 4 if c.get("encoding") == "UCS2_LE" else 0
+        return MR.tms_bytes(c["pdu"], bool(c["ack"]), bool(c["reserved"]), bytes.fromhex(c["address"]), capability=c.get("capability"), sn=c.get("sn"), encoding=enc,
+                            message=bytes.fromhex(c.get("message", "")) if c["pdu"] == "text" else b"")
+    except Exception:
+        return None
+
+
+def prelude_for(sub, case, rng):
+    if sub not in ("tms", "ars"):
+        return []
+    kind = sub
+    calls = []
+    twins = (tms_twins if kind == "tms" else ars_twins)(case)
+    rng.shuffle(twins)
+    img = _ref_image(kind, case)
+    for _, y in twins[:3]:
+        b = _ref_image(kind, y)
+        if b is not None:
+            calls.append({"x": "parse", "a": {"kind": kind, "hex": b.hex()}})
+        else:
+            calls.append({"x": "build", "a": {"kind": kind, "case": y}})
+    if img is not None:
+        hdr = img[2:]
+        # the case's own header octets through every header class, plain and with the top (flag) bit flipped
+        tail = img[3 + (0 if kind == "ars" else 1 + len(bytes.fromhex(case["address"]))):] or b"\x00"
+        for h in (hdr[:1], bytes([hdr[0] ^ 0x40]), tail[:1], bytes([tail[0] ^ 0x80]), bytes([tail[0] & 0x7F])):
+            calls.append({"x": "headers", "a": {"kind": kind, "hex": h.hex()}})
+        # rightly refused / damaged variants of the same image
+        refused = [img[:-1], img[:2] + bytes([img[2] | 0x0E]) + img[3:], (len(img) + 5).to_bytes(2, "big") + img[2:], img[:3], img + b"\x10\x80"]
+        for b in rng.sample(refused, 2):
+            calls.append({"x": "parse", "a": {"kind": kind, "hex": b.hex()}})
+        # the other family's parser on the same octets
+        calls.append({"x": "parse", "a": {"kind": "ars" if kind == "tms" else "tms", "hex": img.hex()}})
+    rng.shuffle(calls)
+    return calls[:10]
+
+
 SUBCHECKS = [
     SubCheck("tms", oracle_tms, drv_tms, "TMS availability / acknowledgement / text: length prefix, parse-back fields, fixed point, reference layout"),
     SubCheck("ars", oracle_ars, drv_ars, "ARS registration / query / de-registration / response (+CSBK trailer): length prefix, parse-back fields, fixed point, reference layout"),
+    SubCheck("retained", oracle_retained, drv_retained, "batches: parse X, parse near twins of X (one field / one header bit different), then serialise and inspect every kept object again"),
 ]
 
 PREDICATES = {
